@@ -9,6 +9,7 @@ values always come from TLC.
 import datetime
 import itertools
 import os
+import threading
 
 import verif_boot  # noqa: F401  (first: shims + in-memory protos)
 import grpc
@@ -36,6 +37,20 @@ STATE = {0: 'UNSPEC', 1: 'ACTIVE', 2: 'INACTIVE', 3: 'COMPLETED'}
 _counter = itertools.count()
 
 
+_tls = threading.local()
+
+
+def set_env(env):
+  """The environment choices of the call being issued: per thread (concurrent calls), with a process-wide fallback
+  for deployments where the policy runs in a server thread."""
+  _tls.env = env
+  ScriptedPolicy.env = env
+
+
+def current_env():
+  return getattr(_tls, 'env', None) or ScriptedPolicy.env
+
+
 class ScriptedPolicy(pythia.Policy):
   """The algorithm as environment: delivers exactly what the call's env says."""
   env = None
@@ -44,7 +59,7 @@ class ScriptedPolicy(pythia.Policy):
     self._s = supporter
 
   def suggest(self, request):
-    e = ScriptedPolicy.env
+    e = current_env()
     if e['raise']:
       raise ValueError('scripted failure')
     delta = vz.MetadataDelta()
@@ -55,7 +70,7 @@ class ScriptedPolicy(pythia.Policy):
     return pythia.SuggestDecision([vz.TrialSuggestion({'x': PARAMS[p]}) for p in e['ps']], delta)
 
   def early_stop(self, request):
-    e = ScriptedPolicy.env
+    e = current_env()
     if e['raise']:
       raise ValueError('scripted failure')
     return pythia.EarlyStopDecisions(
@@ -226,11 +241,23 @@ class World:
     self.owner_id = owner or 'o%d' % next(_counter)
     self.owner = 'owners/' + self.owner_id
 
+  # conf['SharedStudyId']: every abstract study lives under its OWN owner and all of them share one study id
+  # ("owners/<o>_s1/studies/shared", "owners/<o>_s2/studies/shared"): resources that differ only in the owner must
+  # stay isolated.  (ListStudies is not used in this mode: the model knows one owner.)
+  def shared(self):
+    return bool(self.conf.get('SharedStudyId'))
+
+  def owner_of(self, s):
+    return '%s_%s' % (self.owner, s) if self.shared() else self.owner
+
+  def sid(self, s):
+    return 'shared' if self.shared() else s
+
   def sname(self, s):
-    return '%s/studies/%s' % (self.owner, s)
+    return '%s/studies/%s' % (self.owner_of(s), self.sid(s))
 
   def tname(self, s, t):
-    return '%s/studies/%s/trials/%s' % (self.owner, s, t)
+    return '%s/studies/%s/trials/%s' % (self.owner_of(s), self.sid(s), t)
 
   # ------------------------------------------------------------ projection
   def project(self):
@@ -270,7 +297,8 @@ class World:
       es = []
       for i in range(1, conf['MaxId'] + 1):
         try:
-          op = ds.get_early_stopping_operation(resources.EarlyStoppingOperationResource(self.owner_id, s, i).name)
+          op = ds.get_early_stopping_operation(resources.EarlyStoppingOperationResource(
+              self.owner_of(s).split('/')[-1], self.sid(s), i).name)
           es.append({'status': ES_STATUS.get(op.status, str(op.status)), 'stop': op.should_stop})
         except KeyError:
           es.append({'absent': True})
@@ -278,8 +306,13 @@ class World:
     return out
 
   def owner_known(self):
+    if self.shared():
+      return any(self._owner_known(self.owner_of(s)) for s in self.conf['Studies'])
+    return self._owner_known(self.owner)
+
+  def _owner_known(self, owner):
     try:
-      self.api.ListStudies(vs.ListStudiesRequest(parent=self.owner))
+      self.api.ListStudies(vs.ListStudiesRequest(parent=owner))
       return True
     except Exception as e:  # pylint: disable=broad-except
       if err_class(e) != 'NotFound':
@@ -294,8 +327,9 @@ class World:
     s = c.get('s')
     cells = self.conf['Cells']
     if rpc == 'CreateStudy':
-      r = api.CreateStudy(vs.CreateStudyRequest(parent=self.owner, study=study_proto(s, c['cfg'])))
-      return {'name': r.name.split('/')[-1], 'study': proj_study(r, cfg_of(r), cells)}
+      r = api.CreateStudy(vs.CreateStudyRequest(parent=self.owner_of(s), study=study_proto(self.sid(s), c['cfg'])))
+      ok_name = r.name == self.sname(s)
+      return {'name': s if ok_name else r.name, 'study': proj_study(r, cfg_of(r), cells)}
     if rpc == 'GetStudy':
       r = api.GetStudy(vs.GetStudyRequest(name=self.sname(s)))
       return proj_study(r, cfg_of(r), cells)
@@ -335,14 +369,14 @@ class World:
       api.DeleteTrial(vs.DeleteTrialRequest(name=self.tname(s, c['t'])))
       return 'Empty'
     if rpc == 'SuggestTrials':
-      ScriptedPolicy.env = c['env']
+      set_env(c['env'])
       op = api.SuggestTrials(vs.SuggestTrialsRequest(parent=self.sname(s), suggestion_count=c['n'], client_id=c['w']))
       return {'num': int(op.name.split('/')[-1]), 'op': proj_op(op)}
     if rpc == 'GetOperation':
-      name = resources.SuggestionOperationResource(self.owner_id, s, c['w'], c['i']).name
+      name = resources.SuggestionOperationResource(self.owner_of(s).split('/')[-1], self.sid(s), c['w'], c['i']).name
       return proj_op(api.GetOperation(operations_pb2.GetOperationRequest(name=name)))
     if rpc == 'CheckEarlyStopping':
-      ScriptedPolicy.env = c['env']
+      set_env(c['env'])
       r = api.CheckTrialEarlyStoppingState(vs.CheckTrialEarlyStoppingStateRequest(trial_name=self.tname(s, c['t'])))
       return {'stop': r.should_stop}
     if rpc == 'UpdateMetadata':
